@@ -223,6 +223,9 @@ pub fn h_stop_inside(run: &Run, out: &mut Vec<Violation>) {
                 Event::Visit { path, .. } => Some(path),
                 Event::Call { loc, .. } => loc.as_ref(),
                 Event::Report { loc, .. } | Event::Foreign { loc, .. } | Event::Merge { loc, .. } => Some(loc),
+                // the source being asked for the next entry of an object, or a member being decoded
+                Event::Deliver { at, .. } => Some(at),
+                Event::Decode { path } => Some(path),
                 _ => None,
             };
             if let Some(l) = loc {
@@ -360,6 +363,63 @@ pub fn h_first(base: &Run, run: &Run, out: &mut Vec<Violation>) {
     }
 }
 
+/// What the free text of an `Unexpected` report claims about the value at its location, where
+/// the text has one of the shapes the library's own impls use (any other text claims nothing
+/// that can be checked): the quoted string and its announced number of characters, the quoted
+/// out-of-range number, the quoted unparsable key.
+fn unexpected_claims(msg: &str, here: &Doc) -> Option<String> {
+    fn between<'a>(s: &'a str, open: &str, close: &str) -> Option<&'a str> {
+        let a = s.find(open)? + open.len();
+        let b = s[a..].rfind(close)? + a;
+        Some(&s[a..b])
+    }
+    if let Some(rest) = msg.split("found the following string of ").nth(1) {
+        if let Some((n, tail)) = rest.split_once(" characters: `") {
+            if let (Ok(n), Some(quoted)) = (n.parse::<usize>(), tail.strip_suffix('`')) {
+                return match here {
+                    Doc::Str(s) if s == quoted && s.chars().count() == n => None,
+                    Doc::Str(s) if s == quoted => Some(format!("it announces a string of {n} characters; the string there has {}", s.chars().count())),
+                    other => Some(format!("it quotes the string `{quoted}`; the value there is {}", other.render())),
+                };
+            }
+        }
+    }
+    if msg.starts_with("value: `") && (msg.contains("` is too large") || msg.contains("` is too small")) {
+        if let Some(q) = between(msg, "value: `", "` is too") {
+            let there = match here {
+                Doc::Int(x) => Some(x.to_string()),
+                Doc::Neg(x) => Some(x.to_string()),
+                _ => None,
+            };
+            return match there {
+                Some(t) if t == q => None,
+                _ => Some(format!("it quotes the number `{q}`; the value there is {}", here.render())),
+            };
+        }
+    }
+    if msg.ends_with("but found a zero") {
+        return match here {
+            Doc::Int(0) | Doc::Neg(0) => None,
+            other => Some(format!("it says a zero was found; the value there is {}", other.render())),
+        };
+    }
+    if msg.ends_with("but found an empty string") {
+        return match here {
+            Doc::Str(s) if s.is_empty() => None,
+            other => Some(format!("it says an empty string was found; the value there is {}", other.render())),
+        };
+    }
+    if msg.starts_with("the key \"") && msg.contains("\" could not be deserialized into the key type") {
+        if let Some(k) = between(msg, "the key \"", "\" could not be deserialized") {
+            return match here {
+                Doc::Map(m) if m.iter().any(|(k2, _)| k2 == k) => None,
+                _ => Some(format!("it names the key \"{k}\", which the object there does not have")),
+            };
+        }
+    }
+    None
+}
+
 /// Every event resolved against the document the source holds. With duplicate keys a path may
 /// denote several values: a claim must be true of at least one of them.
 pub fn h_loc(run: &Run, doc: &Doc, out: &mut Vec<Violation>) {
@@ -433,7 +493,7 @@ pub fn h_loc(run: &Run, doc: &Doc, out: &mut Vec<Violation>) {
                             }
                             _ => Some(format!("the value at that position is {}", here.render())),
                         },
-                        KindSnap::Unexpected { .. } => None,
+                        KindSnap::Unexpected { msg } => unexpected_claims(msg, here),
                     }
                 };
                 let verdicts: Vec<Option<String>> = all.iter().map(|d| judge(d)).collect();
@@ -869,6 +929,67 @@ pub fn m_calls_opt(
                 "user-function calls differ from the reference interpreter: made but not expected (or made twice): [{}]; expected but not made: [{}]",
                 extra.iter().map(|c| render_call(c)).collect::<Vec<_>>().join("; "),
                 if subset_only { String::from("n/a under stop answers") } else { missing.iter().map(|c| render_call(c)).collect::<Vec<_>>().join("; ") }
+            ),
+        ));
+    }
+}
+
+/// An entry the source handed out to a container that denies unknown keys is dealt with there and
+/// then: whatever the answers, if the keep-going run treats entry K of the object at P as unknown
+/// (reports it, or calls the user's function for it), then every run in which the source hands out
+/// that entry also does, before it ends. (Nothing can come between the hand-out and the report; a
+/// run stopped earlier never gets the entry handed out.) Not meaningful with duplicate keys.
+pub fn h_deliver(base: &Run, run: &Run, out: &mut Vec<Violation>) {
+    if matches!(run.outcome, Outcome::Panic(_)) || matches!(base.outcome, Outcome::Panic(_)) {
+        return;
+    }
+    let handled = |events: &[Event]| -> Vec<(Path, String)> {
+        events
+            .iter()
+            .filter_map(|e| match e {
+                Event::Report { kind: KindSnap::UnknownKey { key, .. }, loc, .. } => Some((loc.clone(), key.clone())),
+                Event::Call { stage: Stage::Unknown, key: Some(k), loc: Some(l), .. } => Some((l.clone(), k.clone())),
+                _ => None,
+            })
+            .collect()
+    };
+    let unknown_in_base = handled(&base.events);
+    if unknown_in_base.is_empty() {
+        return;
+    }
+    let handled_here = handled(&run.events);
+    for e in &run.events {
+        if let Event::Deliver { at, key } = e {
+            let k = (at.clone(), key.clone());
+            if unknown_in_base.contains(&k) && !handled_here.contains(&k) {
+                out.push(v(
+                    "H-deliver",
+                    format!(
+                        "the source handed out entry {key:?} of the object at {}, an unknown key there (the keep-going run reports it), yet this run ends without it having been reported",
+                        path_str(at)
+                    ),
+                ));
+                return;
+            }
+        }
+    }
+}
+
+/// Which object members get decoded: exactly those the reference interpreter says are read.
+pub fn m_decodes(rule: &'static str, exp: &Expect, run: &Run, out: &mut Vec<Violation>) {
+    let mut want: Vec<&Path> = exp.decodes.iter().collect();
+    want.sort();
+    want.dedup();
+    let mut got: Vec<&Path> = run.events.iter().filter_map(|e| if let Event::Decode { path } = e { Some(path) } else { None }).collect();
+    got.sort();
+    got.dedup();
+    let extra: Vec<String> = got.iter().filter(|p| !want.contains(p)).map(|p| path_str(p)).collect();
+    let missing: Vec<String> = want.iter().filter(|p| !got.contains(p)).map(|p| path_str(p)).collect();
+    if !extra.is_empty() || !missing.is_empty() {
+        out.push(v(
+            rule,
+            format!(
+                "object members decoded differ from the reference interpreter: decoded although nothing reads them: {extra:?}; not decoded although read: {missing:?}"
             ),
         ));
     }
